@@ -73,7 +73,7 @@ class FunctionInfo:
 
     def loc(self, node=None):
         n = node if node is not None else self.node
-        return f"{self.module.relpath}:{getattr(n, 'lineno', self.node.lineno)}"
+        return f"{self.module.relpath}:{int(getattr(n, 'lineno', self.node.lineno))}"
 
     def __hash__(self):
         return hash(self.qualname)
@@ -109,7 +109,7 @@ class ClassInfo:
 
     def loc(self, node=None):
         n = node if node is not None else self.node
-        return f"{self.module.relpath}:{n.lineno}"
+        return f"{self.module.relpath}:{int(n.lineno)}"
 
 
 @dataclass
